@@ -176,17 +176,17 @@ CHECKS = {
    design_ref='DESIGN.md §5 C20',
    note=COMMON_NOTE + "Providers are in-process fakes (timeouts and partial HTTP answers are represented by the outcome classes); the SQL cache is exercised, not modelled; estimatefee's clamping/default is a documented normalisation; blockcount's provider-consensus vote is outside the model."),
  'C17': dict(
-   technique='Lean 4 theorem (Mathlib: two roundings with relative error 2^-53 stay within 1/2 for every n <= 21e14, for any rounding obeying the standard model) + exact rational model of binary64 run against Value/value_to_satoshi',
+   technique='Lean 4 theorems (Mathlib: integer->Value->integer and decimal text->integer are exact for every n <= 21e14, for any rounding obeying the standard model of floating point / the half-ulp bound) + exact rational model of binary64 run against Value/value_to_satoshi',
    text=("Proved in Lean (Mathlib, rationals): for ANY rounding function obeying the standard model of floating point (|error| <= 2^-53 per "
          "operation) and ANY non-zero denominator constant d, fl(fl(n*d)/d) lies strictly within 1/2 of n for every n <= 21*10^14, hence rounding "
          "to the nearest integer returns exactly n: Value.from_satoshi(n).value_sat = n on the whole supply range; the bound is shown non-vacuous "
-         "and near-tight (fails above 2.26e15). An exact model of binary64 on rationals (round-to-nearest-even, correctly rounded float(str), "
+         "and near-tight (fails above 2.26e15). Text -> integer: for every n <= 21*10^14, round(float(n/10^8)*1/1e-08) = n for every rounding obeying the standard model, the half-ulp bound below 2^25 and idempotence, with the literal 1e-08 written out and proved within 2^-55 of 10^-8 (three error terms; the top 5% of the range needs the half-ulp bound). An exact model of binary64 on rationals (round-to-nearest-even, correctly rounded float(str), "
          "round(), %.Nf) reproduces the library's pipelines digit for digit and is itself validated against CPython on every run. Compared: integer "
          "-> Value -> integer on 0..20000, 10^k+-1, 2^k+-1, the top of the range and random amounts (50k / thorough 300k), 8-decimal strings -> "
          "satoshi, library formatting parsed back, and formatting in every denominator symbol on every network against the exact decimal "
          "specification; amount strings with every denominator symbol of the table are read back. Found and fixed: F46 (the da symbol). Listed: F14 (display in non-unit denominators is off for some large amounts; float design)."),
    design_ref='DESIGN.md §5 C17',
-   note=COMMON_NOTE + "The standard model of floating-point arithmetic is a hypothesis of the theorem (it is not proved for the executable roundF64, which is validated against CPython instead). "
+   note=COMMON_NOTE + "The standard model of floating-point arithmetic (and, for the text direction, the half-ulp bound and idempotence of rounding) are hypotheses of the theorems (not proved for the executable roundF64, which is validated against CPython instead). Strings with a denominator symbol other than the coin unit (one more inexact multiplication) have no theorem: correspondence only. "
         "Where more than 8 decimals would be needed (denominators above the coin unit) any correct rounding of the last shown digit is accepted. Non-negativity of output and fee amounts is checked under C07."),
  'C16': dict(
    technique='Lean 4 theorems (slot/taint invariant over all call histories: only slots cleared by public() can hold secret-derived data) + per-attribute taint measurement and every-encoding scan of all public views of real objects',
